@@ -41,7 +41,7 @@ def block_imag(ctx, tm, psi, as_mpdm=False):
     big = int(max(L.exact_bond_dims(tm)))
     if as_mpdm:
         big = max(big * big, int(max(psi.bond_dims)))
-    if rng.random() < 0.5:
+    if as_mpdm or tm.label == "spin" or rng.random() < 0.5:
         # a scalar coefficient that is neither 1 nor of modulus 1: "mps_and_coeff" must normalise it
         psi = psi.copy()
         psi.coeff = complex(np.round(rng.uniform(0.4, 2.5), 3) * np.exp(1j * np.round(rng.uniform(0, 6), 3)))
@@ -73,7 +73,7 @@ def block_imag(ctx, tm, psi, as_mpdm=False):
         nm = name_of(spec)
         tdvp = spec["kind"] in ("ps", "ps2", "cmf")
         p = advertised(spec) if spec["kind"] != "ps" and spec["kind"] != "ps2" else 2
-        Ns = (1, 2, 4) if tdvp else (2, 4, 8)
+        Ns = (1, 2, 4) if tdvp else ((4, 8, 16) if p >= 4 else (2, 4, 8))
         floor = {"ps": 1e-7, "ps2": 1e-7, "cmf": 2e-5}.get(spec["kind"], 5e-11)
         try:
             errs = []
